@@ -17,7 +17,7 @@
     digits, where Go prints the shortest round-tripping decimal instead of the exact one, or
     non-terminating expansions, which are truncated) are outside the domain of [fmt_dec]. *)
 From Coq Require Import String Ascii ZArith QArith Bool Arith List.
-From GT Require Import Model.Newick Spec.NewickSpec.
+From GT Require Import Base.UTree Model.Newick Spec.NewickSpec.
 Import ListNotations.
 Local Close Scope Q_scope.
 Local Open Scope string_scope.
@@ -309,3 +309,7 @@ Definition numokC (x : Q) : bool :=
   let s := fmt_go x in
   negb (String.eqb s "") && forall_chars num_char s && numericC s &&
   match parse_numC s with Some y => Qeq_bool y x | None => false end.
+
+(** the writer and the reader with this model of strconv (what C01, C02, C13 run) *)
+Definition write_go : utree -> string := write fmt_go.
+Definition parse_go : string -> pres := parse numericC parse_numC.
